@@ -2,7 +2,7 @@
 
 package checks
 
-// C17, independence part (causal, no timing assumptions beyond a 10 s bound):
+// C17, independence part (causal, no timing assumptions beyond a 60 s bound):
 //  1. "pending-call": environment E runs a program that blocks until the harness releases it; a second call on E
 //     (Open/Ping/Symlink/Delete/Reset) is queued behind it; an unrelated sandbox U (ptrace run, namespace run, Execve on
 //     another environment, Build of a new environment) is then started and must complete with its own result while E's
@@ -52,11 +52,11 @@ func c17Unrelated(kind string, code int, other container.Environment) (string, e
 	case "ptrace":
 		allow := append([]string{"execve", "execveat"}, probeBaseAllow...)
 		filter, _ := buildFilter(allow, nil, libseccomp.ActionKill)
-		tr, err = runTraced(tracedOpts{Script: &s, Filter: filter, Handler: &recHandler{}, Timeout: 10 * time.Second})
+		tr, err = runTraced(tracedOpts{Script: &s, Filter: filter, Handler: &recHandler{}, Timeout: 60 * time.Second})
 	case "unshare":
-		tr, err = runUnshare(sandboxOpts{Script: &s, Timeout: 10 * time.Second})
+		tr, err = runUnshare(sandboxOpts{Script: &s, Timeout: 60 * time.Second})
 	case "container":
-		tr, err = runContainer(sandboxOpts{Script: &s, Env: other, Timeout: 10 * time.Second})
+		tr, err = runContainer(sandboxOpts{Script: &s, Env: other, Timeout: 60 * time.Second})
 	case "build":
 		type b struct {
 			env  container.Environment
@@ -72,8 +72,8 @@ func c17Unrelated(kind string, code int, other container.Environment) (string, e
 			}
 			defer os.RemoveAll(x.root)
 			defer x.env.Destroy()
-			tr, err = runContainer(sandboxOpts{Script: &s, Env: x.env, Timeout: 10 * time.Second})
-		case <-time.After(10 * time.Second):
+			tr, err = runContainer(sandboxOpts{Script: &s, Env: x.env, Timeout: 60 * time.Second})
+		case <-time.After(60 * time.Second):
 			go func() {
 				if x := <-ch; x.err == nil {
 					x.env.Destroy()
@@ -115,6 +115,9 @@ func c17Independence(c c17ICase, rec *vh.Recorder) error {
 		alone, err := c17Unrelated(c.Other, c.Code, other)
 		if err != nil {
 			return err
+		}
+		if strings.HasPrefix(alone, "hung") {
+			return vh.Infraf("the unrelated %s run did not finish in 60 s even alone (machine saturated)", c.Other)
 		}
 		if alone != want {
 			return vh.Violf("C17:wrong-result", "alone, the unrelated run returns %q, want %q; %s", alone, want, desc)
@@ -399,7 +402,7 @@ var _ = strings.HasPrefix
 
 func TestC17Independence(t *testing.T) {
 	rec := vh.NewRecorder(t, "C17", "exploration",
-		"independence part: (1) a program blocked in environment E (released by the harness) + a second call on E queued behind it in {Open, Ping, Symlink, Delete, Reset} for 1..30 ms, then an unrelated sandbox in {ptrace run, namespace run, Execve on another environment, Build of a new environment + Execve} must return the same result as alone while E is still blocked (10 s bound); (3) a launch fails for lack of descriptors (RLIMIT_NOFILE 0 for the moment of the Start), then four concurrent launches must work; (4) one OS thread forks a container init or a namespace-runner child and then hosts a ptrace run: both behave as alone; (2) a goroutine makes a ptrace run whose launch fails in {missing work dir, refusing SyncFunc, closed descriptor in Files, none}, builds an environment, hands it over and ends; after 0..50 ms the environment must answer Ping and run a program; non-trivial = scenario 1, or scenario 2 with a failed launch")
+		"independence part: (1) a program blocked in environment E (released by the harness) + a second call on E queued behind it in {Open, Ping, Symlink, Delete, Reset} for 1..30 ms, then an unrelated sandbox in {ptrace run, namespace run, Execve on another environment, Build of a new environment + Execve} must return the same result as alone while E is still blocked (60 s bound); (3) a launch fails for lack of descriptors (RLIMIT_NOFILE 0 for the moment of the Start), then four concurrent launches must work; (4) one OS thread forks a container init or a namespace-runner child and then hosts a ptrace run: both behave as alone; (2) a goroutine makes a ptrace run whose launch fails in {missing work dir, refusing SyncFunc, closed descriptor in Files, none}, builds an environment, hands it over and ends; after 0..50 ms the environment must answer Ping and run a program; non-trivial = scenario 1, or scenario 2 with a failed launch")
 	vh.Check(t, rec, func(rt *rapid.T) c17ICase {
 		c := c17ICase{Scenario: rapid.SampledFrom([]string{"pending-call", "pending-call", "failed-start-then-build", "failed-start-then-build", "emfile-start", "thread-with-history", "thread-with-history"}).Draw(rt, "scenario"), Code: rapid.IntRange(2, 100).Draw(rt, "code")}
 		c.Pending = rapid.SampledFrom([]string{"open", "open", "ping", "symlink", "delete", "reset"}).Draw(rt, "pending")
